@@ -554,6 +554,59 @@ theorem C08_stays_complete (c : Cfg) (d : ObjMap) (kids : List J) (hk : KidsDesi
   rw [h] at this
   exact List.eq_nil_of_length_eq_zero (by simpa using this)
 
+/-! ### the claims survive the trip through the ControllerRevision objects
+
+`manageRevisions` writes the claims of a revision with `setRevChildren` (the typed client drops an empty list),
+`syncRevisions` reads them with `(revChildren rev).getD []`: what one sync stores is what the next one starts from.
+(That the API server hands back the object it accepted is part of the API model and its correspondence check.) -/
+
+theorem filterMap_str (ns : List String) : List.filterMap (J.str? ∘ J.str) ns = ns := by
+  induction ns with
+  | nil => rfl
+  | cons n rest ih => simp [List.filterMap_cons, J.str?, ih]
+
+/-- a claim group survives being written into a ControllerRevision and read back -/
+theorem CGroup.ofJ_toJ (g : CGroup) : CGroup.ofJ (CGroup.toJ g) = g := by
+  cases g with
+  | mk a k ns =>
+    simp only [CGroup.ofJ, CGroup.toJ, strAt, nestedField, J.get?, J.fields, lookup]
+    simp [List.filterMap_map, filterMap_str]
+
+theorem map_ofJ_toJ (gs : List CGroup) : (gs.map CGroup.toJ).map CGroup.ofJ = gs := by
+  induction gs with
+  | nil => rfl
+  | cons g rest ih => simp [CGroup.ofJ_toJ, ih]
+
+theorem lookup_eraseKey_self (k : String) : ∀ d : KVs, lookup k (eraseKey k d) = none := by
+  intro d
+  induction d with
+  | nil => rfl
+  | cons x rest ih =>
+    obtain ⟨a, b⟩ := x
+    by_cases h : a = k
+    · subst h; simpa [eraseKey] using ih
+    · have hb : (a == k) = false := by simpa using h
+      have hne : ¬ k = a := fun e => h e.symm
+      have ih' : lookup k (List.filter (fun kv => !(kv.1 == k)) rest) = none := ih
+      simp only [eraseKey, List.filter_cons, hb, Bool.not_false, if_true, lookup, hne, if_false]
+      exact ih'
+
+/-- **store round trip of the claims**: the children a sync writes into a ControllerRevision (`setRevChildren`, with the
+    typed client's `omitempty`) are the children the next sync reads from it (`revChildren`, nil slice = no claims) -/
+theorem revChildren_setRevChildren (rev : J) (gs : List CGroup) :
+    (revChildren (setRevChildren rev gs)).getD [] = gs := by
+  cases gs with
+  | nil =>
+    simp only [setRevChildren, revChildren, J.get?, J.fields]
+    rw [lookup_eraseKey_self]
+    rfl
+  | cons g rest =>
+    simp only [setRevChildren, revChildren, J.get?, J.fields, lookup_setKey_same]
+    have := map_ofJ_toJ rest
+    simp only [List.map_map] at this
+    simp [CGroup.ofJ_toJ, this]
+
+
 /-! ### non-vacuity: the hypotheses hold on a concrete rollout in progress
 
 Revision 0 claims `a`, revision 1 claims `b` and `c` (the configuration of `Mc.C07.Ex`); `a` is observed and up to date. -/
